@@ -1,5 +1,5 @@
 (* C05 — results do not depend on worker count or completion order. *)
-From Verif Require Import Prelude Schedule ScheduleP.
+From Verif Require Import Prelude Schedule ScheduleP ScheduleRed ScheduleRedP.
 From Coq Require Import Permutation.
 Open Scope nat_scope.
 
@@ -40,6 +40,32 @@ Theorem C05_hist_rows_arrival_refuted :
     Permutation arr arr' /\ NoDup (map fst arr) /\ hist_rows_cur arr <> hist_rows_cur arr'.
 Proof. exact hist_rows_arrival_refuted. Qed.
 Print Assumptions C05_hist_rows_arrival_refuted.
+
+(* ---------------- what is reduced from the gathered results ---------------- *)
+(* anything computed from the rows in index order is schedule-free, with no algebraic assumption on the
+   reduction: this is why the results are bit-identical although floating-point addition is not associative *)
+Theorem C05_reduce_by_index_schedule_free : forall (V R : Type) (red : list (option V) -> R) n (arr arr' : list (nat * V)),
+  NoDup (map fst arr) -> Permutation arr arr' -> reduce_by_index red n arr = reduce_by_index red n arr'.
+Proof. exact @reduce_by_index_schedule_free. Qed.
+Print Assumptions C05_reduce_by_index_schedule_free.
+
+(* a running total in arrival order needs an operation whose steps commute ... *)
+Theorem C05_reduce_by_arrival_needs_commuting_steps : forall (V R : Type) (op : R -> V -> R) zero (arr arr' : list (nat * V)),
+  (forall a x y, op (op a x) y = op (op a y) x) -> Permutation arr arr' ->
+  reduce_by_arrival op zero arr = reduce_by_arrival op zero arr'.
+Proof. exact @reduce_by_arrival_comm. Qed.
+Print Assumptions C05_reduce_by_arrival_needs_commuting_steps.
+
+(* ... which a rounding addition does not have: two completion orders of the same three results give different
+   running totals, while the reduction in index order gives the same *)
+Theorem C05_reduce_by_arrival_rounding_refuted :
+  exists (arr arr' : list (nat * Z)),
+    Permutation arr arr' /\ NoDup (map fst arr) /\
+    reduce_by_arrival radd 0%Z arr <> reduce_by_arrival radd 0%Z arr' /\
+    reduce_by_index (fun rows => fold_left (fun acc r => match r with Some v => radd acc v | None => acc end) rows 0%Z) 3 arr
+    = reduce_by_index (fun rows => fold_left (fun acc r => match r with Some v => radd acc v | None => acc end) rows 0%Z) 3 arr'.
+Proof. exact reduce_by_arrival_rounding_refuted. Qed.
+Print Assumptions C05_reduce_by_arrival_rounding_refuted.
 
 Example C05_concrete :
   let r01 := {| id1 := 0; id2 := 1; sw1 := [2%Q]; sw2 := [3%Q]; cnts := [[5%Q]] |} in
